@@ -297,7 +297,9 @@ namespace svmon
       r.stream_incs = st.total_incs;
     }
 
-    template <typename Call>
+    // ValMulti: also offer multi-pass ranges of a type the elements are constructible but not assignable from.
+    // (Not for insert(pos, first, last): like libstdc++'s std::vector the header assigns from *first there.)
+    template <bool ValMulti = true, typename Call>
     void with_range (const Op& op, OpResult& r, Call call)
     {
       const size_t n = static_cast<size_t> (op.count);
@@ -384,6 +386,31 @@ namespace svmon
           r.out = guarded ([&] { call (f, l); });
           break;
         }
+        // multi-pass sources the elements are constructible from but NOT assignable from (explicit conversion only)
+        case IT_FWD_VAL:
+          if constexpr (from_val && ValMulti)
+          {
+            SrcArr<Val> a (n, op.val, true); RangeState st (n, "forward");
+            MonIt<Val, std::forward_iterator_tag> f (a.p, &st, 0), l (a.p, &st, dn);
+            r.out = guarded ([&] { call (f, l); });
+          }
+          break;
+        case IT_RAND_VAL:
+          if constexpr (from_val && ValMulti)
+          {
+            SrcArr<Val> a (n, op.val, true); RangeState st (n, "random-access");
+            MonIt<Val, std::random_access_iterator_tag> f (a.p, &st, 0), l (a.p, &st, dn);
+            r.out = guarded ([&] { call (f, l); });
+          }
+          break;
+        case IT_PTR_VAL:
+          if constexpr (from_val && ValMulti)
+          {
+            SrcArr<Val> a (n, op.val, false);
+            const Val *f = a.p, *l = a.p + n;
+            r.out = guarded ([&] { call (f, l); });
+          }
+          break;
         case IT_SVIT:
           if constexpr (copyable)
           {
@@ -477,7 +504,7 @@ namespace svmon
           }
           break;
         case OP_INSERT_RANGE:
-          with_range (op, r, [&] (auto f, auto l) { auto it = v.insert (P (op.pos), f, l); r.ret_off = it - v.begin (); });
+          with_range<false> (op, r, [&] (auto f, auto l) { auto it = v.insert (P (op.pos), f, l); r.ret_off = it - v.begin (); });
           break;
         case OP_INSERT_ILIST:
           with_ilist (op.count, op.val, [&] (auto il) {
